@@ -185,7 +185,7 @@ def list_roundtrip_cases(ctx, n):
 def run_c19(ctx):
     q = ctx.tier == "quick"
     mc_stage(ctx, "listrec", LISTREC, dict(CodePool="one", VecPool="ids", IntVals=[5], FloatVals=[F["one"]], NameVals=["a"], DInt=2, DFloat=1, DBool=1, DName=1, DCode=1, DExec=1, DVec=1 if q else 2))
-    mc_stage(ctx, "listval", LISTVAL, dict(CodePool="recs", IntVals=[-1, 0, 1, 2, 5] if not q else [-1, 0, 1, 5], DInt=2, DCode=2 if q else 3))
+    mc_stage(ctx, "listval", LISTVAL, dict(CodePool="recs", IntVals=[-1, 0, 1, 2, 3, 5] if not q else [-1, 0, 1, 2, 5], DInt=2, DCode=2 if q else 3))
     run_events(ctx, "rand_list", random_instr_cases(ctx, LISTREC + LISTVAL, 60 if q else 3000, ctx.seed, small_ints=True))
     # LIST.GET followed by execution of the pushed record: chains of steps validated one by one
     run_events(ctx, "list_roundtrip", list_roundtrip_cases(ctx, 100 if q else 3000))
@@ -341,7 +341,11 @@ def run_c07(ctx):
     run_events(ctx, "name_sequences", cases)
 
 
-RANDFREE = lambda reg: [n for n in reg if not n.endswith(".RAND") and n != "NAME.RANDBOUNDNAME" and n != "EXEC.CMD"]
+# instructions whose result is not a function of the abstract state: random draws, the shell-out, and the graph
+# queries / renderings that expose hash-map iteration order (a fresh RandomState per map)
+NONDET = {"NAME.RANDBOUNDNAME", "EXEC.CMD", "GRAPH.PRINT", "GRAPH.PRINT*DIFF", "GRAPH.NODES", "GRAPH.NODES*HISTORY",
+          "GRAPH.NODE*SUCCESSORS", "GRAPH.NODE*NEIGHBORS"}
+RANDFREE = lambda reg: [n for n in reg if not n.endswith(".RAND") and n not in NONDET]
 
 
 def run_c02(ctx):
@@ -666,7 +670,8 @@ def run_c12(ctx):
     cs = []
     k = 0
     for ilist in ([], ["INTEGER.+"], ctx.registry):
-        for bound in ({}, {"a": {"k": "int", "v": 1}, "b": {"k": "bool", "v": True}, "c": {"k": "list", "v": []}}):
+        for bound in ({}, {"a": {"k": "int", "v": 1}, "b": {"k": "bool", "v": True}, "c": {"k": "list", "v": []}},
+                      {"x": {"k": "int", "v": 2}, "y": {"k": "int", "v": 3}, "zz": {"k": "list", "v": []}}, {"a": {"k": "int", "v": 1}, "q": {"k": "int", "v": 3}, "c": {"k": "list", "v": []}}):
             for pbits, pzero in ((0, True), (981668463, False), (gen.f2b(1.0), False)):
                 st = gen.empty_state(); st["bind"] = bound; st["cfg"]["new_name_p"] = pbits
                 ops = []
@@ -789,14 +794,22 @@ def run_c14(ctx):
         if ok != expect_ok or (not expect_ok and "Invariant UniqueIds is violated" not in r.stdout):
             raise pv.ToolError("PushConc with Atomic=%s did not behave as expected:\n%s" % (atomic, r.stdout[-2000:]))
     # (C1) determinism: the same programs alone, beside 15 other threads, in other orders, in the optimised build
-    skip = {"GRAPH.NODE*ADD", "EXEC.CMD", "NAME.RANDBOUNDNAME", "GRAPH.PRINT", "GRAPH.PRINT*DIFF", "GRAPH.NODES", "GRAPH.NODES*HISTORY",
-            "GRAPH.NODE*SUCCESSORS", "GRAPH.NODE*NEIGHBORS"}
-    reg = [n for n in ctx.registry if not n.endswith(".RAND") and n not in skip]
+    reg = [n for n in RANDFREE(ctx.registry) if n != "GRAPH.NODE*ADD"]
     g = gen.Gen(ctx.seed + 121, reg)
     cases = []
     for i in range(150 if q else 5000):
         s = g.program_state(g.r.randint(1, 40))
         cases.append({"id": "det-%05d" % i, "pre": s, "steps": 150})
+    # every RAND-free instruction in random states with small operands (history- and thread-dependence of a
+    # single instruction shows as different results for the same case in different execution orders)
+    for c in random_instr_cases(ctx, [n for n in reg], 2 if q else 25, ctx.seed + 123, prefix="detins", small_ints=True, registry=reg):
+        cases.append({"id": c["id"], "pre": c["pre"], "steps": 3})
+    for i in range(40 if q else 1500):
+        s = g.state(depth=2)
+        s["int"] = [g.r.randint(4, 17), g.r.randint(0, 9), g.r.randint(1, 3), g.r.randint(0, 3)] + s["int"]
+        s["float"] = [gen.f2b(g.r.choice([0.0, 1.0, 1.5, 2.0]))] + s["float"]
+        s["exec"] = [ins(g.r.choice(NEIGH))]
+        cases.append({"id": "detnb-%05d" % i, "pre": s, "steps": 2})
     cp = os.path.join(ctx.work, "det.cases.ndjson")
     with open(cp, "w") as f:
         for c in cases: f.write(json.dumps(c) + "\n")
